@@ -102,6 +102,8 @@ impl ArrivalBound for ArrivalCurvePrefix {
         let horizon = self.horizon;
         Box::new(
             iter::once(Duration::zero()).chain((0..).flat_map(move |cycle: u64| {
+                #[cfg(feature = "verif")]
+                crate::verif_hooks::tick("arrival::ArrivalCurvePrefix::steps_iter");
                 self.steps
                     .iter()
                     .map(move |(offset, _njobs)| *offset + horizon * cycle)
